@@ -77,7 +77,7 @@ theorem srcSteps_src (tr : Key → Bool) (dflt : Int) (rank : String) (l0 : Nat)
     simp only [srcSteps, List.mem_map] at hm
     obtain ⟨s, hs, e⟩ := hm
     cases s with
-    | emit j => simp at e; subst e; exact projSteps_src _ _ _ _ _ _ _ j hs
+    | emit j => simp at e; subst e; exact projSteps_src _ _ _ _ _ _ _ _ j hs
     | yield c p => simp at e
 
 theorem srcKeys_ty (rank : String) (l0 : Nat) (src : SrcKind) :
